@@ -204,7 +204,18 @@ class P(Prop):
                     st = {k: v}
             nd = rng.choice(nodes)
             seq = gen.circuit(rng, n_in=(1, 3), n_gates=(1, 5), dead=False, out_inputs=0.2)
-            gen.add_flops(rng, seq)
+            if rng.random() < 0.25:
+                # a flop type with a second output whose net is loaded (K41)
+                gen.add_flops(rng, seq, bb=cg.BlackBox("ffq", ["clk", "d"], ["q", "qn"]))
+                for inst in list(seq.blackboxes):
+                    g = [x for x in seq.graph.nodes if seq.type(x) in gen.MULTI]
+                    if g:
+                        w = seq.add("zz_qn", "buf", uid=True)
+                        seq.connect(f"{inst}.qn", w)
+                        seq.connect(w, rng.choice(g))
+            else:
+                gen.add_flops(rng, seq)
+            extra_loaded = any(seq.fanout(f"{i}.qn") for i, b in seq.blackboxes.items() if "qn" in b.output_set)
             cyc = gen.circuit(rng, n_in=(1, 3), n_gates=(2, 6), dead=False, cyclic=True)
             def compose():
                 """fully connected composition: every child input fed from a parent net, every child output drives a buffer"""
@@ -238,14 +249,15 @@ class P(Prop):
                             ("bench_roundtrip", lambda: cg.io.bench_to_circuit(cg.io.circuit_to_bench(c), c.name))]:
                 o, r = call(f)
                 if o == "ok":
-                    self.lib_check(name, r, {"arg": cj})
+                    self.lib_check(name, r, {"arg": cj if name != "sequential_unroll" else c_to_json(seq)},
+                                   tag=":loaded-extra-output" if name == "sequential_unroll" and extra_loaded else "")
 
-    def lib_check(self, name, c, arg):
+    def lib_check(self, name, c, arg, tag=""):
         self.search_cases += 1
         self.stats.bump("lib:" + name)
         o, _ = call(cg.lint, c)
         if o != "ok":
-            self.fail("search", "lib-not-lint-clean:" + name, f"{name} produced a circuit that lint rejects ({o})",
+            self.fail("search", "lib-not-lint-clean:" + name + tag, f"{name} produced a circuit that lint rejects ({o})",
                       {"fn": name, "arg": arg, "result": c_to_json(c)})
 
     def replay(self, case):
